@@ -206,27 +206,6 @@ open V V.Gen V.Py
 
 /-! ### C09 for the list back end's relation tests: where can a test raise? -/
 
-/-- every element conversion either returns or raises a class that the test applying it catches (the catch lists are
-those of the code, mirrored in `VModel/PyList.lean` and pinned by `Shapes.shapes_match`); executable -/
-def convCaughtL (s : Seq) : Bool :=
-  let c3 := caught ["ValueError", "TypeError", "AttributeError"]
-  s.all (fun x =>
-    (match x.lowerTF with | .raises _ => x.isNone | _ => true) &&
-    (match x.flo with | .raises c => caught ["ValueError", "TypeError"] c | _ => true) &&
-    (match x.firstZero with | .raises c => caught ["ValueError", "TypeError"] c | _ => true) &&
-    (match x.cplx with | .raises c => c3 c | _ => true) &&
-    (match x.strp with | .raises c => caught ["OverflowError", "TypeError", "ValueError"] c | _ => true) &&
-    (match x.url with | .raises c => c3 c | _ => true) &&
-    (match x.uuid with | .raises c => c3 c | _ => true) &&
-    (match x.ip with | .raises c => c3 c | _ => true) &&
-    (match x.email with | .raises c => c3 c | _ => true) &&
-    (match x.wkt with | .raises c => caught ["WKTReadingError", "GEOSException", "AttributeError", "UnicodeEncodeError", "TypeError"] c | _ => true) &&
-    (match x.winAbs with | .raises c => caught ["TypeError"] c | _ => true) &&
-    (match x.posixAbs with | .raises c => caught ["TypeError"] c | _ => true) &&
-    (match x.midnight with | .raises c => c3 c | _ => true) &&
-    (x.cval.isSome || !x.isComplex) &&
-    (match intEq x with | .raises c => caught ["ValueError", "TypeError", "OverflowError"] c | _ => true))
-
 theorem firstRaise_some_mem {α : Type} {l : List (Outcome α)} {c : String} (h : firstRaise l = some c) : Outcome.raises c ∈ l := by
   induction l with
   | nil => simp [firstRaise] at h
@@ -294,7 +273,7 @@ theorem noLeadingZeros_raises {s : Seq} {vals : List FloatV} {c : String} (h : n
 its source type whose element conversions raise caught classes only (`convCaughtL`, executable) -/
 theorem C09_tests_total_list (src dst : Ty) (g : Seq → R Bool) (hg : guardL src dst = some g) (s : Seq)
     (hc : containsL src s = true) (h : convCaughtL s = true) : ∃ b, g s = .ok b := by
-  simp only [convCaughtL, List.all_eq_true, Bool.and_eq_true] at h
+  simp only [convCaughtL, elemOk, List.all_eq_true, Bool.and_eq_true] at h
   have c3of2 : ∀ c, caught ["ValueError", "TypeError"] c = true → caught ["ValueError", "TypeError", "AttributeError"] c = true :=
     fun c hc => caught_mono (by intro n hn; simp at hn ⊢; rcases hn with rfl | rfl <;> simp) hc
   cases src <;> cases dst <;> simp only [guardL, Option.some.injEq, reduceCtorEq] at hg <;> subst hg
@@ -310,8 +289,10 @@ theorem C09_tests_total_list (src dst : Ty) (g : Seq → R Bool) (hg : guardL sr
       | ok o => simp [hlo] at hxe
       | raises d =>
         simp only [hlo] at hl
-        have := hxs.2
-        simp [hl] at this
+        have hstr : x.isStr = true := by
+          simp only [containsL, handleNone] at hc
+          exact List.all_eq_true.mp (notEmpty_true hc).2 x hx
+        simp [hstr] at hl
   · -- String -> Complex
     simp only [stringIsComplex]
     cases hfr : firstRaise (s.map (·.cplx)) with
